@@ -177,3 +177,58 @@ func VC16Fields() {
 }
 
 var _ = fmt.Sprint
+
+// Absent and no-op sub-encoders: a column appears exactly when its key is set and its encoder writes
+// something (the name falls back to the full name when its encoder is nil; the function needs no encoder).
+//
+//verif: prop=C16 bounds="console EncodeEntry with all keys set: each of the level/time/name/caller encoders in {nil, no-op, built-in} (full product) x caller defined or not x name set or not; columns and their order against the reference; default separator"
+func VC16Encoders() {
+	cfg := EncoderConfig{LevelKey: "L", TimeKey: "T", NameKey: "N", CallerKey: "C", FunctionKey: "F", MessageKey: "M", StacktraceKey: "S", LineEnding: "\n"}
+	le, te, ne, ce := vrt.Choice("levelenc", 3), vrt.Choice("timeenc", 3), vrt.Choice("nameenc", 3), vrt.Choice("callerenc", 3)
+	switch le {
+	case 1:
+		cfg.EncodeLevel = vNopLevelEncoder
+	case 2:
+		cfg.EncodeLevel = CapitalLevelEncoder
+	}
+	switch te {
+	case 1:
+		cfg.EncodeTime = vNopTimeEncoder
+	case 2:
+		cfg.EncodeTime = EpochNanosTimeEncoder
+	}
+	switch ne {
+	case 1:
+		cfg.EncodeName = vNopNameEncoder
+	case 2:
+		cfg.EncodeName = FullNameEncoder
+	}
+	switch ce {
+	case 1:
+		cfg.EncodeCaller = vNopCallerEncoder
+	case 2:
+		cfg.EncodeCaller = ShortCallerEncoder
+	}
+	vTimeSel, vDurSel = vTimeEpochNanos, vDurNanos
+	sh := vEntryShape{timeSet: true, named: vrt.Choice("E.name", 2) == 1, caller: vrt.Choice("E.caller", 2) == 1, fn: true}
+	ent := vMakeEntry(sh, WarnLevel, "hello")
+	root, _ := vNewRef()
+	enc := NewConsoleEncoder(cfg)
+	buf, err := enc.EncodeEntry(ent, nil)
+	vrt.Assert("encode-returns-nil", err == nil)
+	out := buf.Bytes()
+	vrt.Observe("line", out)
+	cols := vConsoleColumns(&cfg, sh, "WARN", "hello", te == 2, le == 2, ne != 1, ce == 2)
+	if ne == 1 {
+		// a name encoder that writes nothing: no name column
+		var kept []vCol
+		for _, c := range cols {
+			if !(c.exact && c.text == "svc.sub") {
+				kept = append(kept, c)
+			}
+		}
+		cols = kept
+	}
+	vConsoleCheck(out, "\t", cols, root, "", "\n")
+	vrt.Cover("done")
+}
